@@ -61,12 +61,26 @@ def gen(rng, tier):
     # PDS values that make a packed carrier exceed 999 characters are refused too
     for n in (993, 994, 1000):
         cases.append({'cfg': None, 'codec': 'latin_1', 'hex': False, 'msg': iu.dict_text({'MTI': '1144', 'PDS0001': 'x' * n}), 'over': True})
+    # the same raw text under several configurations, with earlier calls in the same process (caches, shared state)
+    for cc in iu.collision_cases(rng, 60 if tier == 'quick' else 1500):
+        cases.append({'cfg': cc['cfg'], 'codec': cc['codec'], 'hex': cc['hex'], 'msg': cc['msg'], 'warm': cc.get('warm', []), 'over': False})
+    # the merchant field on its own under the packaged configuration: every way the documented shape can be met or missed
+    for _ in range(150 if tier == 'quick' else 3000):
+        codec = rng.choice(['latin_1', 'cp500', 'cp037', 'ascii', 'cp1252'])
+        m = {'MTI': '1240', 'DE43': iu.rand_de43(rng, codec, 99)}
+        if rng.random() < 0.3:
+            m['DE2'] = '5' * rng.randint(12, 19)
+        cases.append({'cfg': None, 'codec': codec, 'hex': rng.random() < 0.3, 'msg': iu.dict_text(m), 'over': False})
     return cases
 
 
 def impl(case):
     from cardutil import iso8583
-    cfg = case['cfg']
+
+    def warm_call(w, c):
+        wb = iso8583.dumps(iu.dict_of_text(w['msg']), encoding=w['codec'], iso_config=c, hex_bitmap=w['hex'])
+        iso8583.loads(wb, encoding=w['codec'], iso_config=c, hex_bitmap=w['hex'])
+    cfg = iu.run_warm(case, warm_call)
     m = iu.dict_of_text(case['msg'])
     res = {'dumps': outcome(lambda: iso8583.dumps(dict(m), encoding=case['codec'], iso_config=cfg, hex_bitmap=case['hex']), hb)}
     try:
